@@ -124,7 +124,7 @@ fn exec_with_flag(file: &File, tree: &Tree, source: &str, globals: &BTreeMap<Str
 
 /// programs where "which error is reported" has room to vary
 fn special_text(rng: &mut Rng) -> (String, &'static str) {
-    match rng.below(10) {
+    match rng.below(13) {
         6 => (
             "(identifier) @id { node n attr (n) idx = (named-child-index @id), txt = (source-text @id), cnt = (named-child-count @id) }\n(argument_list (_) @arg) { node m attr (m) arg_idx = (named-child-index @arg), ty = (node-type @arg) }\n".into(),
             "syntax_functions_on_every_node",
@@ -134,6 +134,14 @@ fn special_text(rng: &mut Rng) -> (String, &'static str) {
             "(module) @m { node n attr (n) a = (node), b = (node), c = (node), d = (node) let x = (node) let y = (node) attr (n) f = y, e = x attr ((node)) g = (node), h = (node) print @m }\n".into(),
             "node_creating_values_in_one_statement",
         ),
+        10 | 11 | 12 => {
+            // files that differ only in the text of one nested statement (same stanza and statement
+            // positions): what one of them reports must not depend on which ran before
+            let value = *rng.pick(&["(plus 1 2)", "(plus 1 \"x\")", "(plus \"y\" 2)", "(no-such-function 1)", "(plus 3 4)"]);
+            let block = *rng.pick(&["if #true", "for q in [1]", "scan \"a\" { \"a\""]);
+            let close = if block.starts_with("scan") { " }" } else { "" };
+            (format!("(module)\n{{\n  node n\n  {} {{\n    attr (n) val = {}\n  }}{}\n}}\n", block, value, close), "same_layout_different_statement_text")
+        }
         9 => (
             // with debug attributes: a conflict between an attribute the program sets and one the
             // executor wrote, in an execution that follows successful ones on other trees
